@@ -412,42 +412,96 @@ func checkE2eProvenance(c *Ctx) {
 					}
 					R.Check(ok, "R16.4", fn+"#packets-sent", x.Pos(), fn, "PacketsSent = len(RTTs)", "PacketsSent is not the number of RTT samples")
 				case "PacketsReceived":
-					R.Check(C != nil && x.Val == ssa.Value(C), "R16.5", fn+"#packets-received", x.Pos(), fn, "PacketsReceived counts exactly the samples that enter the positive-sample slice", "PacketsReceived is not the counter that grows together with the positive-sample slice (samples > 0)")
-				}
-			case *ssa.Call:
-				if calleeIs(x, "result.calculateJitter") {
-					R.Check(x.Common().Args[0] == ssa.Value(S), "R16.6", fn+"#jitter-input", x.Pos(), fn, "jitter is computed from the positive samples only", "jitter is not computed from the positive-sample slice: lost probes (RTT 0) enter the differences and the bound 0 <= jitter <= max-min over positive samples no longer follows")
-				}
-			case *ssa.IndexAddr:
-				// after the counting loop every element read feeds min/avg/max: it must index the positive-sample slice
-				if _, isF := x.Type().(*types.Pointer).Elem().Underlying().(*types.Basic); isF && isRTTs(x.X) && x.Block() != S.Block() {
-					if loop := loopOfHeader(S.Block()); loop == nil || !loop[x.Block()] {
-						R.Fail("R16.6", fn+"#stat-input", x.Pos(), fn, "a statistic reads the raw sample list instead of the positive samples")
+					okc := C != nil && x.Val == ssa.Value(C)
+					if call, isCall := x.Val.(*ssa.Call); isCall {
+						if bi, isB := call.Common().Value.(*ssa.Builtin); isB && bi.Name() == "len" && call.Common().Args[0] == ssa.Value(S) {
+							okc = true
+						}
 					}
+					R.Check(okc, "R16.5", fn+"#packets-received", x.Pos(), fn, "PacketsReceived counts exactly the samples that enter the positive-sample slice", "PacketsReceived is not the counter that grows together with the positive-sample slice (samples > 0)")
 				}
 			}
 		}
 	}
-	// avg divides by len(S)
-	okAvg := false
+	// R16.6: every statistic is a function of the positive-sample slice alone. Backward slice of each stored value through
+	// arithmetic, phis, conversions, element loads and call arguments; it must reach S and must not reach the raw sample list.
+	nstat := 0
 	for _, b := range f.Blocks {
 		for _, in := range b.Instrs {
-			if st, ok := in.(*ssa.Store); ok {
-				if fa, ok := st.Addr.(*ssa.FieldAddr); ok && core.FieldName(fa) == "Avg" {
-					if q, ok := st.Val.(*ssa.BinOp); ok && q.Op.String() == "/" {
-						if cv, ok := q.Y.(*ssa.Convert); ok {
-							if call, ok := cv.X.(*ssa.Call); ok {
-								if bi, ok := call.Common().Value.(*ssa.Builtin); ok && bi.Name() == "len" && call.Common().Args[0] == ssa.Value(S) {
-									okAvg = true
-								}
-							}
+			st, ok := in.(*ssa.Store)
+			if !ok {
+				continue
+			}
+			fa, ok := st.Addr.(*ssa.FieldAddr)
+			if !ok {
+				continue
+			}
+			name := core.FieldName(fa)
+			if name != "Min" && name != "Max" && name != "Avg" && name != "Jitter" {
+				continue
+			}
+			nstat++
+			seenS, seenRaw := false, false
+			seen := map[ssa.Value]bool{}
+			var walk func(v ssa.Value, d int)
+			walk = func(v ssa.Value, d int) {
+				if v == nil || seen[v] || d > 40 {
+					return
+				}
+				seen[v] = true
+				if v == ssa.Value(S) {
+					seenS = true
+					return
+				}
+				if isRTTs(v) {
+					seenRaw = true
+					return
+				}
+				switch y := v.(type) {
+				case *ssa.BinOp:
+					walk(y.X, d+1)
+					walk(y.Y, d+1)
+				case *ssa.UnOp:
+					walk(y.X, d+1)
+				case *ssa.Convert:
+					walk(y.X, d+1)
+				case *ssa.ChangeType:
+					walk(y.X, d+1)
+				case *ssa.Phi:
+					for _, e := range y.Edges {
+						walk(e, d+1)
+					}
+				case *ssa.IndexAddr:
+					walk(y.X, d+1)
+				case *ssa.Slice:
+					walk(y.X, d+1)
+				case *ssa.Extract:
+					walk(y.Tuple, d+1)
+				case *ssa.Call:
+					for _, a := range y.Common().Args {
+						walk(a, d+1)
+					}
+				case *ssa.Alloc:
+					for _, r := range *y.Referrers() {
+						if s2, ok := r.(*ssa.Store); ok && s2.Addr == ssa.Value(y) {
+							walk(s2.Val, d+1)
 						}
 					}
 				}
 			}
+			walk(st.Val, 0)
+			key := fn + "#stat-input[" + name + "]"
+			switch {
+			case seenRaw:
+				R.Fail("R16.6", key, st.Pos(), fn, "the statistic "+name+" is computed from the raw sample list: lost probes (RTT 0) enter it, so it is no longer bounded by the positive samples")
+			case !seenS:
+				R.Fail("R16.6", key, st.Pos(), fn, "the statistic "+name+" does not depend on the positive-sample slice")
+			default:
+				R.OK("R16.6", key, st.Pos(), fn, name+" is a function of the positive samples only")
+			}
 		}
 	}
-	R.Check(okAvg, "R16.6", fn+"#avg-divisor", f.Pos(), fn, "average RTT divides by the number of positive samples", "average RTT does not divide by len(positive samples)")
+	R.Floor("R16.6:statistics", nstat, 4)
 }
 
 func isNamedStruct(t types.Type, pkg string) bool {
